@@ -1050,7 +1050,7 @@ func run() {
 	defer r.fs.close()
 	nb, nmut, nbig := 6, 40, 1
 	if thorough() {
-		nb, nmut, nbig = 110, 200, 8
+		nb, nmut, nbig = 20, 100, 2
 	}
 	bi := 0
 	// base 0: the empty buffer, carrier of random garbage
@@ -1058,7 +1058,7 @@ func run() {
 	r.emitCase(bi, "empty", nil, -1, nil, true)
 	ngarb := 60
 	if thorough() {
-		ngarb = 1500
+		ngarb = 400
 	}
 	for i := 0; i < ngarb; i++ {
 		var y []byte
@@ -1179,6 +1179,9 @@ func run() {
 				continue
 			}
 			sp := diffSplice(x, y)
+			if len(sp[2].([]int)) > 1500 {
+				continue // e.g. a duplicated 20 KiB payload: too large a literal for the Coq side
+			}
 			r.emitCase(bi, "mut:"+d, sp, -1, y, big || g.coin(8))
 		}
 		bi++
